@@ -61,7 +61,7 @@ def flat(a):
 FUNC = {
     "mesh_code": 1, "mesh_spec": 2, "face_centroid": 3, "poly_code": 4, "fans": 5, "mesh_moments": 6,
     "polygon": 10, "polygon_planar": 11, "poly_faces": 12,
-    "inside_convex": 20, "winding2": 21, "winding3": 22, "dist2_mesh": 23, "inside_ellipsoid": 24, "ellipse": 25,
+    "inside_convex": 20, "winding2": 21, "winding3": 22, "dist2_mesh": 23, "inside_ellipsoid": 24, "sphero_inside": 26, "ellipse": 25,
     "curved": 30, "structure": 40, "edge_data": 41, "balls": 45, "circum": 46, "simple": 47, "gsd_dispatch": 60, "meshio": 70, "family": 50,
 }
 
